@@ -153,6 +153,32 @@ def toolsSetup (c : Conf) : List (Name × Conf) :=
       some (t, settings.filter fun (a, _) => a ≠ onName ∧ a ≠ priorityName)
     else none
 
+/-! ### custom toolboxes (`Toolbox('myns')` registered in `app.toolboxes`) -/
+
+/-- `request.toolmaps[ns]` as built by that toolbox's `populate` -/
+def toolmapOf (ns : Name) (c : Conf) : List (Name × Conf) :=
+  let b := bucket c ns
+  let names := dedup (b.filterMap fun (k, _) => (splitDot k).map (·.1))
+  names.map fun t => (t, settingsOf b t)
+
+/-- A tool object reachable as attribute `name` of the toolbox `ns`; `home` is the namespace the tool itself
+    carries (`Tool.namespace`: the toolbox it was attached to last — `Toolbox.__setattr__`). -/
+structure BoxTool where
+  ns : Name
+  name : Name
+  home : Name
+  deriving Repr, Inhabited
+
+/-- `Toolbox.__exit__` of toolbox `ns` for one of its tools: `settings.get('on', False)` of
+    `toolmaps[ns][name]` decides; `Tool._setup` → `_merged_args` reads `toolmaps[tool.namespace][tool._name]`. -/
+def boxToolSetup (c : Conf) (t : BoxTool) : Option Conf :=
+  if ((cget (settingsOf (bucket c t.ns) t.name) onName).map truthy).getD false then
+    some ((settingsOf (bucket c t.home) t.name).filter fun (a, _) => a ≠ onName ∧ a ≠ priorityName)
+  else none
+
+def boxToolsSetup (c : Conf) (ts : List BoxTool) : List (BoxTool × Conf) :=
+  ts.filterMap fun t => (boxToolSetup c t).map fun kw => (t, kw)
+
 /-- Is tool `t` set up for a request whose effective config is `c`? -/
 def toolOn (c : Conf) (t : Name) : Bool :=
   (toolsSetup c).any (·.1 = t)
